@@ -75,6 +75,9 @@ type Property struct {
 	// DeathIsViolation: a worker that dies or hangs on a case violates this property (C01, C19, C20); for the other
 	// properties such a case is skipped and left to C01.
 	DeathIsViolation bool
+	// CrossProcess > 0: the driver re-executes that fraction of the cases in a second set of fresh processes and compares
+	// the digests the oracle left in Result.Detail ("digest:...") (C07).
+	CrossProcess float64
 	// Race: build the worker with the race detector.
 	Race bool
 	// Chunk overrides the number of cases handed to a worker at a time.
@@ -104,6 +107,12 @@ func HashCase(c *core.Case) string {
 	cp.Seed, cp.Index, cp.Tier, cp.Note = 0, 0, "", ""
 	b, _ := json.Marshal(cp)
 	h := sha256.Sum256(b)
+	return hex.EncodeToString(h[:12])
+}
+
+// HashString returns a short digest of s.
+func HashString(s string) string {
+	h := sha256.Sum256([]byte(s))
 	return hex.EncodeToString(h[:12])
 }
 
